@@ -409,6 +409,7 @@ type mutexState struct {
 	locked  bool
 	readers int
 	owner   *Thread
+	where   string
 }
 
 func (m *Machine) mutex(p *Value) *mutexState {
@@ -426,7 +427,17 @@ func (m *Machine) mutex(p *Value) *mutexState {
 func (m *Machine) lock(p *Value) {
 	s := m.mutex(p)
 	m.schedPoint("lock")
-	m.block(func() bool { return !s.locked && s.readers == 0 }, "Mutex.Lock")
+	why := "Mutex.Lock"
+	if s.locked && s.owner != nil {
+		why = fmt.Sprintf("Mutex.Lock(held by g%d, done=%v, at %s)", s.owner.id, s.owner.done, s.where)
+	}
+	m.block(func() bool { return !s.locked && s.readers == 0 }, why)
+	if m.curInstr != nil && m.curFrame != nil {
+		s.where = m.position(m.curInstr.Pos()) + " " + m.curFrame.fn.String()
+		if m.curFrame.caller != nil {
+			s.where += " <- " + m.curFrame.caller.fn.String()
+		}
+	}
 	s.locked = true
 	s.owner = m.cur
 }
